@@ -189,6 +189,40 @@ class Top(Elaboratable):  # noqa: F405
         return m
 
 
+class Watchdog:
+    """`with Watchdog(20):` raises TimeoutError inside the block once the process has burnt that many seconds of
+    CPU time in it (main thread only): a run-away loop in the implementation becomes an observation instead of
+    hanging the check.  CPU time, not wall time, so that a loaded machine cannot trip it; the timer repeats
+    every second in case the exception lands where Python swallows it (`__del__`)."""
+
+    fired = 0  # after a few timeouts the budget shrinks so that shrinking a hanging case stays fast
+
+    def __init__(self, seconds: float):
+        self.seconds = max(2.0, seconds - 6 * Watchdog.fired)
+
+    def _fire(self, signum, frame):
+        Watchdog.fired += 1
+        raise TimeoutError("implementation did not finish")
+
+    def __enter__(self):
+        import signal
+        import threading
+
+        self.active = threading.current_thread() is threading.main_thread()
+        if self.active:
+            self.old = signal.signal(signal.SIGVTALRM, self._fire)
+            signal.setitimer(signal.ITIMER_VIRTUAL, self.seconds, 1.0)
+        return self
+
+    def __exit__(self, *exc):
+        import signal
+
+        if self.active:
+            signal.setitimer(signal.ITIMER_VIRTUAL, 0)
+            signal.signal(signal.SIGVTALRM, self.old)
+        return False
+
+
 def interp(width: int, signed: bool, bits: int) -> int:
     """value pysim reports for a `width`-bit signal holding the bit pattern `bits`"""
     b = bits % (1 << width)
